@@ -62,6 +62,53 @@ func goroutineState(id int64) string {
 	return ""
 }
 
+// deadlocked: every one of the goroutines that has not finished is waiting on a mutex.  A request
+// that is merely slow (a loaded machine) shows some other state and is given more time.
+func deadlocked(ids []int64) bool {
+	any := false
+	for _, id := range ids {
+		st := goroutineState(id)
+		if st == "" {
+			continue // finished
+		}
+		any = true
+		if !mutexWait(st) {
+			return false
+		}
+	}
+	return any
+}
+
+// waitOrDeadlock waits for done; after hungAfter it reports a deadlock if the goroutines ids are all
+// stuck on mutexes at three looks 200 ms apart, and otherwise keeps waiting (up to two minutes).
+func waitOrDeadlock(done <-chan struct{}, ids []int64) (hung bool) {
+	select {
+	case <-done:
+		return false
+	case <-time.After(hungAfter):
+	}
+	t0 := time.Now()
+	stuck := 0
+	for {
+		select {
+		case <-done:
+			return false
+		case <-time.After(200 * time.Millisecond):
+		}
+		if deadlocked(ids) {
+			stuck++
+		} else {
+			stuck = 0
+		}
+		if stuck >= 3 {
+			return true
+		}
+		if time.Since(t0) > 2*time.Minute {
+			fatal("requests neither finished nor deadlocked within two minutes")
+		}
+	}
+}
+
 func mutexWait(state string) bool {
 	for _, w := range []string{"sync.Mutex.Lock", "sync.RWMutex.Lock", "sync.RWMutex.RLock", "semacquire"} {
 		if len(state) >= len(w) && state[:len(w)] == w {
@@ -157,79 +204,66 @@ type forcedResult struct {
 }
 
 const blockedAfter = 4 * time.Second
-const hungAfter = 8 * time.Second // nothing in an episode takes more than milliseconds unless it waits on a mutex forever
+const hungAfter = 6 * time.Second // nothing in an episode takes more than milliseconds unless it waits on a mutex for ever
 
 // runForced starts a, waits until it is held at site, runs b, then releases a.
 func runForced(site string, a, b func() bool) forcedResult {
 	var res forcedResult
-	doneA := make(chan bool, 1)
+	doneA := make(chan struct{})
 	armed := make(chan [2]chan struct{}, 1)
+	gidA := make(chan int64, 1)
 	go func() {
-		p, r := ctl.arm(site, goid())
+		g := goid()
+		gidA <- g
+		p, r := ctl.arm(site, g)
 		armed <- [2]chan struct{}{p, r}
-		doneA <- a()
+		res.okA = a()
+		close(doneA)
 	}()
+	idA := <-gidA
 	pr := <-armed
 	parked, release := pr[0], pr[1]
 	select {
 	case <-parked:
 		res.reached = true
-	case ok := <-doneA:
+	case <-doneA:
 		// a finished without passing the yield point
 		ctl.disarm()
-		res.okA = ok
 		res.okB = b()
 		return res
-	case <-time.After(20 * time.Second):
+	case <-time.After(60 * time.Second):
 		ctl.disarm()
-		fatal("request did not reach yield point %s within 20 s", site)
+		fatal("request did not reach yield point %s within 60 s", site)
 	}
-	doneB := make(chan bool, 1)
+	doneB := make(chan struct{})
 	gidB := make(chan int64, 1)
-	go func() { gidB <- goid(); doneB <- b() }()
+	go func() { gidB <- goid(); res.okB = b(); close(doneB) }()
 	idB := <-gidB
-	// request 2 is blocked when its goroutine waits on a mutex at two looks 100 ms apart while
+	// request 2 is blocked when its goroutine waits on a mutex at three looks 100 ms apart while
 	// request 1 is held and nothing else runs (or, failing that, when it has not finished in time)
 	waits := 0
 	t0 := time.Now()
 wait:
 	for {
 		select {
-		case ok := <-doneB:
-			res.okB = ok
-			close(release)
-			select {
-			case res.okA = <-doneA:
-			case <-time.After(hungAfter):
-				res.hung = true
-			}
-			return res
+		case <-doneB:
+			break wait
 		case <-time.After(100 * time.Millisecond):
 			if mutexWait(goroutineState(idB)) {
 				waits++
 			} else {
 				waits = 0
 			}
-			if waits >= 2 || time.Since(t0) > blockedAfter {
+			if waits >= 3 || time.Since(t0) > blockedAfter {
 				res.blocked = true
 				break wait
 			}
 		}
 	}
 	close(release)
-	deadline := time.After(hungAfter)
-	gotA, gotB := false, false
-	for !(gotA && gotB) {
-		select {
-		case res.okA = <-doneA:
-			gotA = true
-		case res.okB = <-doneB:
-			gotB = true
-		case <-deadline:
-			res.hung = true
-			return res
-		}
-	}
+	both := make(chan struct{})
+	go func() { <-doneA; <-doneB; close(both) }()
+	res.hung = waitOrDeadlock(both, []int64{idA, idB})
 	return res
 }
 
@@ -253,10 +287,15 @@ func runStress(rng *lib.Rand, reqs []func() bool) (acked []bool, hung bool) {
 	}
 	start := make(chan struct{})
 	var wg sync.WaitGroup
+	ids := make([]int64, n)
+	var idsReady sync.WaitGroup
 	for i := 0; i < n; i++ {
 		wg.Add(1)
+		idsReady.Add(1)
 		go func(i int) {
 			defer wg.Done()
+			ids[i] = goid()
+			idsReady.Done()
 			<-start
 			if skews[i] > 0 {
 				time.Sleep(skews[i])
@@ -264,16 +303,15 @@ func runStress(rng *lib.Rand, reqs []func() bool) (acked []bool, hung bool) {
 			ok[i] = reqs[i]()
 		}(i)
 	}
+	idsReady.Wait()
 	ctl.setJitter(true)
 	close(start)
 	done := make(chan struct{})
 	go func() { wg.Wait(); close(done) }()
-	select {
-	case <-done:
-	case <-time.After(hungAfter):
-		ctl.setJitter(false)
+	hung = waitOrDeadlock(done, ids)
+	ctl.setJitter(false)
+	if hung {
 		return nil, true
 	}
-	ctl.setJitter(false)
 	return ok, false
 }
